@@ -369,7 +369,9 @@ class IMM(BGMM):
 
         scalar_w = np.log(tau / np.pi) * self.dim
         scalar_w += 2 * gammaln((a + 1) / 2)
-        scalar_w -= 2 * gammaln((a - self.dim) / 2)
+        # Student-t prior predictive with nu = a - dim + 1 degrees of freedom:
+        # Gamma((nu + dim) / 2) / Gamma(nu / 2)
+        scalar_w -= 2 * gammaln((a - self.dim + 1) / 2)
         scalar_w -= ldb * a
         w = scalar_w * np.ones(x.shape[0])
 
